@@ -3,36 +3,50 @@ ID = "C47"
 LEAN_PROPS = "Tahoe.Props.C47"
 DRIVER = "C47"
 GENERATED = []
-SOURCES = ["src/allmydata/mutable/publish.py", "src/allmydata/mutable/layout.py"]
+SOURCES = ["src/allmydata/mutable/publish.py", "src/allmydata/mutable/layout.py", "src/allmydata/storage_client.py"]
 DESIGN_REF = "DESIGN.md §2 C47"
-TECHNIQUE = ("Lean 4 theorems over an executable model of Publish's writer bookkeeping (_connection_problem, "
-             "_got_write_answer, _push, _failure/_done, update_goal), for every order of answers; differential "
-             "correspondence (a) of seeded answer/failure sequences on real Publish objects (real _push, "
-             "_connection_problem, _got_write_answer, _failure, _done), (b) of seeded goals on the real update_goal, "
-             "(c) of the event trace of every real publish in grid scenarios with faults injected on writes; "
-             "implementation-side monitor that inspects the share files after every publish")
-LEVEL_TEXT = ("success => >= k distinct share numbers have a proxy that was never dropped and whose every answer said "
-              "wrote=True, and no answer showed an unexpected version; fewer than k placeable share numbers => error; a "
-              "refused write => UncoordinatedWriteError: proved in Lean for every event order. The model is tied to "
-              "publish.py at function level and on grid runs with failing servers.")
+TECHNIQUE = ("Lean 4 theorems over an executable model of the last phase of Publish: the write proxies (an answer and a "
+             "failure are handed on unchanged), finish_publishing's per-proxy callback chain, the bookkeeping "
+             "(_connection_problem, _got_write_answer, _push, _failure/_done; writers, goal, placed, bad_servers), "
+             "update_goal, the proxies created per goal entry, and the wire form of the test vectors with the server's "
+             "compare — for every arrival order and failure pattern; differential correspondence of seeded sequences "
+             "through the real finish_publishing()/_push()/_got_write_answer()/_connection_problem(), the real update_goal, "
+             "the real SDMF/MDMF write proxies, the real storage_client glue (Foolscap and HTTP) with a real storage "
+             "server's verdict, and of the event trace and on-disk result of every real publish in grid scenarios with "
+             "faults injected on writes; a fixed corpus first; implementation-side monitors that inspect the share files")
+LEVEL_TEXT = ("Proved in Lean for every arrival order: success_implies_k_acked and success_implies_k_stored (success => >= k "
+              "distinct share numbers acknowledged wrote=True and stored on the servers, no unexpected version seen), "
+              "fewer_than_k_fails / fewer_than_k_stored_fails, refused_or_surprising_write_is_ucw, bookkeeping_sound, "
+              "update_goal_covers / update_goal_sound, fault_free_publish_stores_all, wire_testv_guards (a write guarded by "
+              "a test vector cannot land on a share holding anything else). Tied to publish.py, layout.py and "
+              "storage_client.py at function level and on grid runs with failing servers.")
 LEVEL_NOTE = ("Lean kernel + standard axioms; hand-transcribed model tied by correspondence; the DeferredList contract "
-              "(the final _push runs after every proxy's Deferred fired) is an explicit hypothesis; share encoding, "
-              "signing and the storage servers are exercised on the grid, not verified here")
-RULE = ("(a) seeded Publish states (k 1..4, 1..8 proxies on 1..6 servers, several proxies per server) with one event per "
-        "proxy in seeded order (answer wrote=T/F with read_data holding own, co-written, foreign-same-version and "
-        "foreign-other-version shares, or a failure) — one case per sequence, non-trivial = at least one failure or "
-        "refused/surprising answer; (b) seeded update_goal inputs (bad servers, non-permitted servers, partial goals); "
-        "(c) grid scenarios: 1..12 servers, SDMF and MDMF, create then up to 3 publishes (overwrite / update) with a "
-        "fault plan per server on slot_testv_and_readv_and_writev (fail before the write, fail after the write = lost "
-        "answer, server down, hang) — one case per publish; distinct = distinct canonical inputs")
-TRUSTED = ["lean/Tahoe/Mutable/PublishDecision.lean is a hand transcription of the Publish bookkeeping",
+              "(the final _push runs after every proxy's Deferred fired) is an explicit hypothesis; the preference order "
+              "among eligible servers in update_goal is correspondence only; share encoding, signing and the storage "
+              "servers' byte-level behaviour are exercised on the grid, not verified here")
+RULE = ("fixed corpus first (VERIF_CORPUS_ONLY=1 runs only it): bookkeeping sequences, grid scenarios, wire vectors and "
+        "partition scenarios, one per seeded change; then (a) seeded Publish states (k 1..4, 1..8 proxies on 1..6 servers, "
+        "several proxies per server) with one event per proxy in seeded order (answer wrote=T/F with read_data holding own, "
+        "co-written, foreign-same-version and foreign-other-version shares, or a failure), driven through the real "
+        "finish_publishing() — non-trivial = at least one failure or refused/surprising answer; (b) seeded update_goal "
+        "inputs and the proxies the real publish()/update() set-up creates; (c) write-proxy outcomes (answered / refused / "
+        "failed) for both formats and test vectors through the real storage_client glue onto a real storage server; "
+        "(d) grid scenarios: 1..12 servers, SDMF and MDMF, create then up to 3 publishes (overwrite / update) with a fault "
+        "plan per server on slot_testv_and_readv_and_writev (fail before the write, fail after it = lost answer, server "
+        "down, hang, an older share replayed between survey and write) — one case per publish; (e) two writers on a "
+        "partitioned grid, heal, publish with the stale servermap; distinct = distinct canonical inputs")
+TRUSTED = ["lean/Tahoe/Mutable/PublishDecision.lean, PublishRun.lean and WireTestv.lean are hand transcriptions of the "
+           "Publish bookkeeping, the proxy/callback layers and the test-vector glue",
            "harness/grid.py, and the call-through observation wrappers of harness/props/c47.py around Publish.publish/"
-           "update/_push/_got_write_answer/_connection_problem"]
+           "update/_push/_got_write_answer/_connection_problem/_failure and the storage servers' test-and-set"]
 ASSUMPTIONS = ["DeferredList fires after each of its Deferreds fired exactly once (Twisted)",
                "each write proxy sends one slot_testv_and_readv_and_writev (finish_publishing) — true of both "
                "SDMFSlotWriteProxy and MDMFSlotWriteProxy in this code base",
                "'the new version is on a share' is read from the share file's checkstring (seqnum, root hash); the share "
-               "body's integrity is C10's subject"]
+               "body's integrity is C10's subject",
+               "an exception outside the bookkeeping (e.g. update() of a file with a missing share number: KeyError in "
+               "_push_segment, reported as NotEnoughServersError) is an error report, not a bookkeeping decision: counted, "
+               "not compared"]
 
 import struct
 
